@@ -96,7 +96,8 @@ Print Assumptions C04_loop_between_partial.
 Theorem C04_loop_least_partial : forall g K v0 strides, geom_ok g -> Forall (stride_ok g) strides ->
   forall fuel cur s s', Inv g K strides v0 s -> -1 <= cur < 2 * gS g ->
   loop fuel (gS g) strides cur s = Ok s' ->
-  forall U, flat_postfixed g strides v0 U -> forall i, 0 <= i < gS g -> sel (vals s') i <= U i.
+  forall dec U, mono_on K dec -> flat_postfixed g strides v0 dec U ->
+  forall i, 0 <= i < gS g -> interior_b g i = true -> dec (sel (vals s') i) <= U i.
 Proof. exact loop_least. Qed.
 Print Assumptions C04_loop_least_partial.
 
